@@ -57,9 +57,32 @@ def canon(v: Any) -> str:
     """type-tagged canonical form of a Python value (model's `showRes`)"""
     if v is None:
         return "none"
-    if isinstance(v, (float, complex)):
-        return "float"
+    if isinstance(v, float):
+        return "float:" + v.hex()            # exact: every float is compared bit for bit
+    if isinstance(v, complex):
+        return "float:complex:" + v.real.hex() + "," + v.imag.hex()
     return tok(v)
+
+
+def norm_model(m: str) -> str:
+    """the model's result in the harness's canonical form.  `quot:a/b` is the model's *oracle* for int true
+    division — CPython's correctly rounded quotient of exactly these two integers; the oracle is realised
+    here by the running interpreter (`a / b`), which is what ties the symbolic model value to a float."""
+    if m.startswith("quot:"):
+        a, b = m[5:].split("/")
+        try:
+            return "float:" + (int(a) / int(b)).hex()
+        except (OverflowError, ZeroDivisionError) as e:
+            return "quot-undefined:" + type(e).__name__
+    return m
+
+
+def model_agrees(model: str, actual: str) -> bool:
+    """model `float` (some float the model does not pin down, e.g. a negative power) matches any float"""
+    model = norm_model(model)
+    if model == "float":
+        return actual.startswith("float:")
+    return model == actual
 
 
 def canon_exact(v: Any) -> str:
@@ -370,6 +393,16 @@ def pend(ctx: Ctx, what: str, detail: dict) -> None:
         lst.append((what, detail))
 
 
+def pretty(c: str) -> str:
+    """canonical result for messages: floats also in decimal"""
+    if c.startswith("float:") and not c.startswith("float:complex:"):
+        try:
+            return f"float:{float.fromhex(c[6:])!r} ({c[6:]})"
+        except ValueError:
+            return c
+    return c if len(c) < 120 else c[:60] + "…" + c[-20:]
+
+
 def property_check(ctx: Ctx, which: str, kind: str, op: str, operands: list, real_c: str, real_raw: Any,
                    want_c: str, want_exact: str | None = None) -> bool:
     """The property's own oracle on one case.  Returns True when it holds.
@@ -392,13 +425,13 @@ def property_check(ctx: Ctx, which: str, kind: str, op: str, operands: list, rea
     if real_c == "none":
         return True                      # declining to fold is always allowed
     ok = real_c == want_c
-    if ok and want_exact is not None and real_c == "float":
+    if ok and want_exact is not None and real_c.startswith("float:"):
         ok = canon_exact(real_raw) == want_exact
     if not ok:
         report_once(ctx, {"sub": "fold", "class": "folded-value-differs", "op": ("u" if kind == "U" else "") + op,
                     "operand_types": ",".join(classes), "folder_result_type": type(real_raw).__name__},
                    f"{which} folds {op} {[describe(o) for o in operands]} to {describe(real_raw)}, "
-                   f"CPython gives {want_c}", detail)
+                   f"CPython gives {pretty(want_c)}", detail)
     return ok
 
 
@@ -449,9 +482,9 @@ def run_grid(ctx: Ctx) -> None:
                  nontrivial=not all(isinstance(o, int) and abs(int(o)) <= 1 for o in ops))
         ctx.dist("fold_op", ("u" if kind == "U" else "") + op)
         ctx.dist("fold_operand_types", ",".join(operand_class(o) for o in ops))
-        ctx.dist("fold_cpython_outcome", want if want.startswith("raise") else ("float" if want == "float" else "value"))
+        ctx.dist("fold_cpython_outcome", want if want.startswith("raise") else ("float" if want.startswith("float:") else "value"))
         # (b) CPython vs the model of CPython — a disagreement is a defect of the model, not of mypy
-        if mpy != "notmodelled" and mpy != want:
+        if mpy != "notmodelled" and not model_agrees(mpy, want):
             nd_py += 1
             raise ToolFailure(f"Python-semantics model disagrees with CPython on {line!r}: model {mpy}, CPython {want}")
         if mpy == "notmodelled" and not (op == "%" and isinstance(ops[0], (str, bytes))):
@@ -459,7 +492,7 @@ def run_grid(ctx: Ctx) -> None:
         # the property itself on the real folder
         holds = property_check(ctx, which, kind, op, ops, real_c, real_raw, want)
         # (a) real folder vs model of the folder
-        if real_c != mfold and not real_c.startswith("exc:"):
+        if not model_agrees(mfold, real_c) and not real_c.startswith("exc:"):
             nd_fold += 1
             ctx.count("disagreements_checked")
             if holds:
@@ -557,7 +590,7 @@ def run_guard_boundary(ctx: Ctx) -> None:
         ctx.case(("G", ext, op, operand_class(a), operand_class(b), hash((tok(a), tok(b)))))
         ctx.dist("fold_guard_side", f"{op}:{'below' if mbelow == '1' else 'above'}")
         ctx.dist("fold_guard_real", f"{op}:{'declined' if real_c == 'none' else 'raised' if real_c.startswith('exc:') else 'folded'}")
-        if mpy != "notmodelled" and mpy != want:
+        if mpy != "notmodelled" and not model_agrees(mpy, want):
             raise ToolFailure(f"Python-semantics model disagrees with CPython on guard-boundary case {short}")
         holds = property_check(ctx, which, "B", op, [a, b], real_c, real_raw, want)
         # a tree that declares a bound must not fold past it
@@ -574,7 +607,7 @@ def run_guard_boundary(ctx: Ctx) -> None:
                             {"sub": "fold", "folder": which, "kind": "G", "op": op,
                              "operands_tok": [tok(a)[:60] + ("…" if len(tok(a)) > 60 else ""), tok(b)[:60]],
                              "operands": [describe(a), describe(b)], "result_size": size})
-        if real_c != mfold and not real_c.startswith("exc:"):
+        if not model_agrees(mfold, real_c) and not real_c.startswith("exc:"):
             nd += 1
             ctx.count("disagreements_checked")
             if holds:
@@ -587,6 +620,79 @@ def run_guard_boundary(ctx: Ctx) -> None:
     ctx.count("traces_validated_against_impl", len(lines))
     ctx.coverage["fold_guard_boundary_cases"] = len(lines)
     ctx.coverage["fold_guard_boundary_disagreements"] = nd
+
+
+def truediv_pairs(ctx: Ctx) -> list[tuple[int, int]]:
+    """int / int where rounding matters: an operand above 2**53 that is not exactly representable (converting
+    the operands to float first rounds twice), quotients near ties, and the OverflowError threshold"""
+    rng = ctx.rng
+    big = []
+    for k in (53, 54, 55, 60, 63, 64, 100):
+        big += [2 ** k + d for d in (-3, -1, 1, 3, 5)]
+    big += [10 ** k for k in (16, 17, 22, 23, 24, 30, 40, 100)] + [10 ** 23 + 1, 3 ** 40, 7 ** 30 * 11 ** 9, 123456789 ** 5]
+    big += [rng.getrandbits(rng.choice([60, 64, 80, 128, 200])) | 1 for _ in range(ctx.pick(120, 1500))]
+    small = [1, 2, 3, 5, 7, 9, 10, 11, 13, 49, 1000, 2 ** 10 + 1, 10 ** 6 + 3]
+    div = small + [10 ** k for k in (15, 16, 22)] + [2 ** 53 + 1, 2 ** 60 - 1] + \
+        [rng.getrandbits(rng.choice([20, 40, 64, 100])) | 1 for _ in range(ctx.pick(12, 60))]
+    pairs = []
+    for a in big:
+        for b in (rng.sample(div, ctx.pick(7, 20)) + [3, 7]):
+            sa, sb = rng.choice([1, 1, -1]), rng.choice([1, 1, -1])
+            pairs.append((sa * a, sb * b))
+        pairs.append((rng.choice(small), a))            # small / big
+    # both operands big and inexact
+    for _ in range(ctx.pick(150, 1500)):
+        pairs.append((rng.getrandbits(rng.choice([70, 130, 200])) | 1, (rng.getrandbits(rng.choice([60, 65, 120])) | 1) * rng.choice([1, -1])))
+    # OverflowError threshold: |a / b| around 2**1024 - 2**970, and plainly beyond
+    T = 2 ** 1024 - 2 ** 970
+    for b in (1, 3, -7, 2 ** 60 + 1, 10 ** 30):
+        for d in (-2, -1, 0, 1):
+            pairs.append((T * abs(b) + d, b))
+            pairs.append((-(T * abs(b) + d), b))
+    pairs += [(10 ** 400, 1), (10 ** 400, 10 ** 100), (1, 10 ** 400), (-(10 ** 400), 7), (2 ** 53 + 1, 3), (10 ** 23, 7),
+              (True, 3), (2 ** 53 + 1, True), (0, 5), (5, 0), (0, 0)]
+    return pairs
+
+
+def run_truediv(ctx: Ctx) -> None:
+    """true division of ints: model (oracle `quot`) vs both real folders vs CPython, floats compared bit for bit"""
+    from mypy.constant_fold import constant_fold_binary_op
+    from mypyc.irbuild.constant_fold import constant_fold_binary_op_extended
+    pairs = truediv_pairs(ctx)
+    lines = [f"B {ext} / {tok(a)} {tok(b)}" for a, b in pairs for ext in (0, 1)]
+    model = ctx.lean_driver(DRIVER, lines)
+    if len(model) != len(lines):
+        raise ToolFailure("fold driver: wrong number of output lines for the true-division stream")
+    nd = i = 0
+    for a, b in pairs:
+        want = py_eval(operator.truediv, a, b)
+        inexact = any(isinstance(x, int) and abs(int(x)) > 2 ** 53 and float(x) != x
+                      for x in (a, b) if abs(int(x)) < 2 ** 1000)
+        for ext in (0, 1):
+            mline = model[i]
+            i += 1
+            mfold, mpy = mline.split(" ")
+            mfold, mpy = mfold[5:], mpy[3:]
+            which = "mypyc" if ext else "mypy"
+            fn = constant_fold_binary_op_extended if ext else constant_fold_binary_op
+            real_c, real_raw = real_call(fn, "/", a, b)
+            ctx.case(("D", ext, tok(a), tok(b)), nontrivial=inexact)
+            ctx.dist("fold_truediv", "inexact-operand" if inexact else ("raises" if want.startswith("raise") else "exact-operands"))
+            if not model_agrees(mpy, want):
+                raise ToolFailure(f"Python-semantics model disagrees with CPython on {a} / {b}: model {mpy}, CPython {want}")
+            holds = property_check(ctx, which, "B", "/", [a, b], real_c, real_raw, want)
+            if not model_agrees(mfold, real_c) and not real_c.startswith("exc:"):
+                nd += 1
+                ctx.count("disagreements_checked")
+                if holds:
+                    pend(ctx, f"fold correspondence broken on int true division: {which} folder gives {real_c}, model {mfold} "
+                              f"on {describe(a)} / {describe(b)}; CPython gives {want}",
+                         {"sub": "fold", "broken": f"correspondence Driver/C12Fold `B /` vs {which} folder",
+                          "kind": "B", "folder": which, "op": "/", "operands_tok": [tok(a), tok(b)],
+                          "folder_result": real_c, "model": mfold, "cpython": want})
+    ctx.count("traces_validated_against_impl", len(lines))
+    ctx.coverage["fold_truediv_cases"] = len(lines)
+    ctx.coverage["fold_truediv_disagreements"] = nd
 
 
 def run_floats(ctx: Ctx) -> None:
@@ -667,9 +773,9 @@ def run_trees(ctx: Ctx) -> None:
         else:
             real_c, real_raw = real_call(mypy_fold, node, "m")
         ctx.case(("E", ext, line), nontrivial=True)
-        ctx.dist("fold_tree_outcome", real_c if real_c in ("none", "float") or real_c.startswith("exc") else "folded:" + real_c[0])
+        ctx.dist("fold_tree_outcome", real_c if real_c == "none" or real_c.startswith("exc") else "folded:" + real_c[0])
         ctx.dist("fold_tree_cpython", want if want.startswith("raise") else "value")
-        if mpy != "notmodelled" and mpy != want:
+        if mpy != "notmodelled" and not model_agrees(mpy, want):
             raise ToolFailure(f"Python-semantics model disagrees with CPython on {line!r}: model {mpy}, CPython {want}")
         # property: a folded value is CPython's value
         holds = True
@@ -681,8 +787,9 @@ def run_trees(ctx: Ctx) -> None:
                         {"sub": "fold", "folder": which, "kind": "E", "tokens": line, "source": src,
                          "folder_result": real_c, "cpython": want})
         # a float below the root is outside the model: compare the real folder with CPython only
-        float_path = real_c == "float" or (mfold == "none" and mpy == "notmodelled") or skip_model
-        if not float_path and real_c != mfold and not real_c.startswith("exc:"):
+        float_path = (real_c.startswith("float:") and not mfold.startswith("quot:")) or \
+            (mfold == "none" and mpy == "notmodelled") or skip_model
+        if not float_path and not model_agrees(mfold, real_c) and not real_c.startswith("exc:"):
             nd += 1
             ctx.count("disagreements_checked")
             if holds:
@@ -829,8 +936,8 @@ def run_end_to_end(ctx: Ctx) -> None:
         fv = getattr(sym.node, "final_value", None)
         real_c = canon(fv)
         ctx.case(("E2E", lines[i]))
-        ctx.dist("fold_e2e_outcome", "none" if real_c == "none" else ("float" if real_c == "float" else "folded"))
-        if mpy != "notmodelled" and mpy != want:
+        ctx.dist("fold_e2e_outcome", "none" if real_c == "none" else ("float" if real_c.startswith("float:") else "folded"))
+        if mpy != "notmodelled" and not model_agrees(mpy, want):
             raise ToolFailure(f"Python-semantics model disagrees with CPython on {lines[i]!r}: {mpy} vs {want}")
         holds = real_c == "none" or real_c == want
         if not holds:
@@ -839,8 +946,9 @@ def run_end_to_end(ctx: Ctx) -> None:
                        f"mypy records final_value {real_c} for `X: Final = {tree_src(t, {})}`, CPython gives {want} ({where})",
                        {"sub": "fold", "kind": "E2E", "folder": "mypy", "tokens": lines[i], "source": tree_src(t, {}),
                         "folder_result": real_c, "cpython": want})
-        float_path = real_c == "float" or (mfold == "none" and mpy == "notmodelled")
-        if not float_path and real_c != mfold:
+        float_path = (real_c.startswith("float:") and not mfold.startswith("quot:")) or \
+            (mfold == "none" and mpy == "notmodelled")
+        if not float_path and not model_agrees(mfold, real_c):
             nd += 1
             ctx.count("disagreements_checked")
             if holds:
@@ -873,6 +981,7 @@ def run(ctx: Ctx) -> None:
     before = len(ctx.violations)
     run_grid(ctx)
     run_guard_boundary(ctx)
+    run_truediv(ctx)
     run_floats(ctx)
     run_trees(ctx)
     run_end_to_end(ctx)
